@@ -6,6 +6,7 @@ Check @parse_complete.
 Check @option_is_recognised.
 Check @print_parse_roundtrip.
 Check @struct_parse_complete.
+Check @enum_parse_complete.
 Check @interpretation_stable.
 Check @attribute_readings.
 Check @parsed_field_flags.
@@ -15,6 +16,7 @@ Print Assumptions parse_complete.
 Print Assumptions option_is_recognised.
 Print Assumptions print_parse_roundtrip.
 Print Assumptions struct_parse_complete.
+Print Assumptions enum_parse_complete.
 Print Assumptions interpretation_stable.
 Print Assumptions attribute_readings.
 Print Assumptions parsed_field_flags.
